@@ -1,0 +1,15 @@
+//go:build verif
+
+package ansi
+
+// Yield points for property C10 (shutdown). VerifC10Yield, when set, is called when Close has sent
+// the close signal ("parser.closeSent") and when WaitClose has taken the closed token
+// ("parser.closedTaken"). A verification harness records the order of these steps. It changes no
+// behaviour; without the build tag verifC10 is an empty function.
+var VerifC10Yield func(p *Parser, point string)
+
+func verifC10(p *Parser, point string) {
+	if h := VerifC10Yield; h != nil {
+		h(p, point)
+	}
+}
